@@ -46,3 +46,20 @@ def c06_cam_sampler(v):
             'ks_reject:ConstantAndMultiplicativeGaussianErrorModel':
         return False
     return bool(v.get('detail', {}).get('matches_quadrature_model'))
+
+
+def c17_dim_names_reset(v):
+    """
+    ComposedPopulationModel.set_dim_names(None) resets every sub-model to its
+    own 'Dim. 1', ... so parameter names of a composite whose defaults
+    collide are duplicated again (the constructor enumerates the dimensions
+    in that case).  A stable repository test pins the reset behaviour.
+    Attributed only if the sole problem is the duplicate-name one, the model
+    is a composite and a reset of the dimension names is still in effect.
+    """
+    if v['mechanism'] != 'hierarchical_counts':
+        return False
+    d, f = v.get('detail', {}), v.get('features', {})
+    if d.get('problems') != ['duplicate names with ids under default naming']:
+        return False
+    return bool(f.get('dim_names_reset_pending')) and f.get('n_leaves', 0) > 1
